@@ -174,11 +174,12 @@ theorem C14_no_false_positive (trait_ : T) (impls : List T) (hts : cleanItems (t
   refine ⟨fun i h => (traitHeader_ok_iff trait_ i).2 (hh i h), fun i h => ?_⟩
   exact (compareTraitItems_ok_iff _ _ hts (hi i h).1).2 (hi i h).2
 
-/-- inherent family: every other block is compared with the first one -/
+/-- inherent family: every other block is compared with the first one — item sets, then visibilities -/
 theorem C14_inherent_family_ok_iff (first : T) (rest : List T) :
     validateInherentImpls (first :: rest) = .ok () ↔
       (∀ i ∈ first :: rest, implTraitPath i = none) ∧
-      (∀ i ∈ rest, compareInherentItems (implItemSigs first) (implItemSigs i) = .ok ()) := by
+      (∀ i ∈ rest, compareInherentItems (implItemSigs first) (implItemSigs i) = .ok ()) ∧
+      (∀ i ∈ rest, compareInherentVis (implItems first) (implItems i) = .ok ()) := by
   have hhdr : ∀ i : T, inherentHeader i = .ok () ↔ implTraitPath i = none := by
     intro i; unfold inherentHeader; cases implTraitPath i <;> simp
   rw [validateInherentImpls_eq]
@@ -186,12 +187,53 @@ theorem C14_inherent_family_ok_iff (first : T) (rest : List T) :
   | ok u =>
     cases u
     simp only
-    rw [firstError_map_ok_iff]
-    exact ⟨fun h => ⟨fun i hi => (hhdr i).1 (firstError_map_ok_iff.1 hf i hi), h⟩, fun h => h.2⟩
+    cases hi : firstError (rest.map (fun item => compareInherentItems (implItemSigs first) (implItemSigs item))) with
+    | ok u2 =>
+      cases u2
+      simp only
+      rw [firstError_map_ok_iff]
+      exact ⟨fun h => ⟨fun i hi' => (hhdr i).1 (firstError_map_ok_iff.1 hf i hi'), firstError_map_ok_iff.1 hi, h⟩, fun h => h.2.2⟩
+    | error d =>
+      simp only [reduceCtorEq, false_iff]
+      intro h
+      rw [firstError_map_ok_iff.2 h.2.1] at hi; cases hi
   | error d =>
     simp only [reduceCtorEq, false_iff]
     intro h
     rw [firstError_map_ok_iff.2 (fun i hi => (hhdr i).2 (h.1 i hi))] at hf; cases hf
+
+theorem compareInherentVis_cases (a b : List T) :
+    compareInherentVis a b = .ok () ∨ compareInherentVis a b = .error .visMismatch := by
+  unfold compareInherentVis; split <;> simp
+
+theorem firstError_vis (first : T) : ∀ (rest : List T),
+    (∃ i ∈ rest, compareInherentVis (implItems first) (implItems i) = .error .visMismatch) →
+    firstError (rest.map (fun item => compareInherentVis (implItems first) (implItems item))) = .error .visMismatch
+  | [], h => by obtain ⟨_, hi, _⟩ := h; cases hi
+  | i :: rest, h => by
+    simp only [List.map_cons]
+    rcases compareInherentVis_cases (implItems first) (implItems i) with h1 | h1
+    · rw [h1]; simp only [firstError]
+      obtain ⟨j, hj, hv⟩ := h
+      rcases List.mem_cons.1 hj with rfl | hj'
+      · rw [h1] at hv; cases hv
+      · exact firstError_vis first rest ⟨j, hj', hv⟩
+    · rw [h1]; simp only [firstError]
+
+/-- (fix 48b34ff) inherent blocks that agree on their item sets but give one item different visibilities are rejected with
+    "Visibility doesn't match between impls": the generated impl could only carry the first block's visibility -/
+theorem C14_visibility_mismatch (first : T) (rest : List T)
+    (hh : ∀ i ∈ first :: rest, implTraitPath i = none)
+    (hi : ∀ i ∈ rest, compareInherentItems (implItemSigs first) (implItemSigs i) = .ok ())
+    (hv : ∃ i ∈ rest, compareInherentVis (implItems first) (implItems i) = .error .visMismatch) :
+    validateInherentImpls (first :: rest) = .error .visMismatch := by
+  have hhdr : ∀ i : T, inherentHeader i = .ok () ↔ implTraitPath i = none := by
+    intro i; unfold inherentHeader; cases implTraitPath i <;> simp
+  rw [validateInherentImpls_eq, firstError_map_ok_iff.2 (fun i h => (hhdr i).2 (hh i h))]
+  simp only
+  rw [firstError_map_ok_iff.2 hi]
+  simp only
+  exact firstError_vis first rest hv
 
 /-- atomic: `validateAll` answers `.ok ()` or exactly one diagnostic — that of the first failing family -/
 theorem C14_atomic (trait_ : Option T) (fams : List (List T)) (d : Diag)
